@@ -23,6 +23,9 @@ class Knobs:
         self.p_bot = rng.choice([0.05, 0.2])
 
 
+MULTI_HOLES = False     # set by the C14 engine around materialise: hole lists with two entries in descending order (seeded change S85)
+
+
 def gen_metavar(rng, k, ident=None):
     i = rng.choice(k.mvars) if ident is None else ident
     if rng.random() >= k.p_constr:
@@ -40,6 +43,8 @@ def gen_metavar(rng, k, ident=None):
         cand = [x for x in k.evars if x not in ef] if rng.random() >= k.p_illformed else list(k.evars)
         if cand:
             holes = (rng.choice(cand),)
+            if MULTI_HOLES and len(cand) >= 2 and rng.random() < 0.5:
+                holes = tuple(sorted(rng.sample(cand, 2), reverse=rng.random() < 0.7))
     return T.mv(i, ef, sf, pos, ng, holes)
 
 
